@@ -123,7 +123,7 @@ func init() {
 					total += l
 					frs = append(frs, fmt.Sprintf("%d:%s", l, e))
 				}
-				if t.Thorough() && t.R.Intn(20) == 0 {
+				if t.Thorough() && t.R.Intn(400) == 0 {
 					frs = append(frs, "600000:0")
 					total += 600000
 				}
